@@ -176,6 +176,31 @@ Definition qei_stage (d : domain) (fixed : list (nat * Q)) (c : row) (af : row -
   | None => SErr (SOpt OP.NoBest)
   end).
 
+(* views/rest/search_next_points.py search_strategy_optimization: per suggestion, DE (100 multistarts, 200 iterations) from
+   the best pretest location on the one-hot domain; afl lies = the probability-of-improvement search function after the
+   points found so far were added as repulsors and the distance parameter was re-drawn *)
+Record sorc := { so_gen : nat -> list row; so_us : nat -> list Q; so_ds : list (list (nat * nat * nat) * list (list Q)) }.
+Fixpoint search_loop (d : domain) (c : row) (afl : list row -> row -> Q) (Pde : OP.de_par) (maxiter : nat) (pretest : list row)
+  (lies : list row) (os : list sorc) : sres (list row) :=
+  match os with
+  | [] => SOk []
+  | o :: os' =>
+      match pretest with
+      | [] => SErr SValue
+      | _ :: _ =>
+          let best_af_location := nth (argmax (map (afl lies) pretest)) pretest [] in
+          sbind (lift (OP.de_optimize (afl lies) (oh_restrict d [] c (so_us o)) (so_gen o) Pde maxiter
+                         (Some [best_af_location]) (so_ds o))) (fun o_de =>
+          match OP.best_location o_de with
+          | None => SErr (SOpt OP.NoBest)
+          | Some p =>
+              if Nat.eqb (length p) (oh_dim d) then          (* assert next_point.shape == (acquisition_function.dim,) *)
+                sbind (search_loop d c afl Pde maxiter pretest (lies ++ [p]) os') (fun rest => SOk (p :: rest))
+              else SErr SAssert
+          end)
+      end
+  end.
+
 (* ------------------------------------------------------------------ 5. the sampler plugged into the tails' oracles *)
 (* CategoricalDomain.generate_quasi_random_points_in_domain(n): the constrained branch asks the one-hot sampler for n rows *)
 Definition mk_qorc (d : domain) (c : row) (n : Z) (so : samp_orc) (cols : list (list Q)) (dec : dorc) : option qorc :=
@@ -197,12 +222,18 @@ Record gp_fill := { f_so : samp_orc; f_cols : list (list Q); f_dec : dorc; f_cho
 Inductive gp_mode :=
 | GCl (P : vpar) (pretest : list row) (os : list vorc)        (* constant liar (also: qEI without pending points) *)
 | GQei (Pde : OP.de_par) (maxiter : nat) (gen : nat -> list row) (us : nat -> list Q)
-       (ds : list (list (nat * nat * nat) * list (list Q))).  (* parallel EI with pending points, one suggestion *)
+       (ds : list (list (nat * nat * nat) * list (list Q)))   (* parallel EI with pending points, one suggestion *)
+| GSearch (Pde : OP.de_par) (maxiter : nat) (pretest : list row) (os : list sorc).   (* the search endpoint's own optimisation *)
 Definition gp_stage (D : domain) (fixed : list (nat * Q)) (c : row) (afl : list row -> row -> Q) (best : list row -> row)
   (n : nat) (m : gp_mode) : sres (list row) :=
   match m with
   | GCl P pretest os => cl_stage D fixed c afl best P pretest n os
   | GQei Pde maxiter gen us ds => if Nat.eqb n 1 then qei_stage D fixed c (afl []) Pde maxiter gen us ds else SErr SAssert
+  | GSearch Pde maxiter pretest os =>
+      match fixed with
+      | [] => if Nat.eqb (length os) n then search_loop D c afl Pde maxiter pretest [] os else SErr SScript
+      | _ :: _ => SErr SScript                              (* the search endpoint has no task column *)
+      end
   end.
 Definition is_qei (m : gp_mode) : bool := match m with GQei _ _ _ _ _ => true | _ => false end.
 
@@ -231,6 +262,19 @@ Definition gp_endpoint_mt (d : domain) (opts : list Q) (t : Q) (ct : row) (afl :
       obind (mk_qorc dt ct (fill_k dt pts aug) (f_so f) (f_cols f) (f_dec f)) (fun q =>
       gp_view d opts false (afl []) xs [] hist_oh
         {| g_dec := dec; g_hdec := hdec; g_choice := f_choice f; g_q := q |})))
+  end.
+
+(* SearchNextPoints.view: the expected-improvement phases are the GP endpoint; in the explore / resolve phase, with
+   probability 0.8, the probability-of-improvement search is optimised instead, converted with the neighbour search,
+   de-duplicated against the history (the same funnel, no task costs: gp_endpoint in mode GSearch) *)
+Definition search_endpoint (d : domain) (c : row) (ph : sphase) (u : Q) (afl : list row -> row -> Q) (best : list row -> row)
+  (n : nat) (m : gp_mode) (afl_pi : list row -> row -> Q) (Pde : OP.de_par) (maxiter : nat) (pretest : list row) (sos : list sorc)
+  (hist : list point) (dec : dorc) (f : gp_fill) : option response :=
+  match ph with
+  | SResolve =>
+      if Qltb u RESOLVE_PHASE_PROB then gp_endpoint d c afl_pi best n (GSearch Pde maxiter pretest sos) hist dec f
+      else gp_endpoint d c afl best n m hist dec f
+  | _ => gp_endpoint d c afl best n m hist dec f
   end.
 
 (* ------------------------------------------------------------------ 7. the Parzen-estimator endpoint *)
@@ -265,14 +309,12 @@ Definition spe_batch (d : domain) (c : row) (bsz : nat) (lower : list row) (os :
   | Some pts => Some (combine (combine (firstn bsz pts) eis) us)
   | None => None
   end.
-Fixpoint all_some' {A} (l : list (option A)) : option (list A) :=
-  match l with [] => Some [] | None :: _ => None | Some a :: r => option_map (Datatypes.cons a) (all_some' r) end.
 (* per while-iteration: the near-point oracles, the scaled EI values of the test points, the uniforms test_probs *)
 Record speglue := { sg_lower : list row; sg_iters : list (list nearorc * list Q * list Q); sg_pad : samp_orc;
                     sg_ix : list nat; sg_dec : dorc; sg_pcols : list (list Q); sg_rso : samp_orc; sg_rcols : list (list Q);
                     sg_rdec : dorc; sg_draws : list Q }.
 Definition spe_batches (d : domain) (c : row) (g : speglue) : option (list (list (row * Q * Q))) :=
-  all_some' (map (fun it => spe_batch d c (Z.to_nat SPE_BATCH_SIZE) (sg_lower g) (fst (fst it)) (snd (fst it)) (snd it)) (sg_iters g)).
+  all_some (map (fun it => spe_batch d c (Z.to_nat SPE_BATCH_SIZE) (sg_lower g) (fst (fst it)) (snd (fst it)) (snd it)) (sg_iters g)).
 Definition spe_endpoint (d : domain) (opts : list Q) (ps : list DS.prior) (path : spe_path) (n : Z) (c : row) (g : speglue)
   : option response :=
   match path with
@@ -285,3 +327,9 @@ Definition spe_endpoint (d : domain) (opts : list Q) (ps : list DS.prior) (path 
         {| s_batches := batches; s_pad := pad; s_ix := sg_ix g; s_dec := sg_dec g; s_pcols := sg_pcols g;
            s_q := {| q_cols := []; q_rows := []; q_dec := sg_dec g |}; s_draws := sg_draws g |}))
   end.
+
+(* SPESearchNextPoints.view: initialisation = random suggestions, exploitation = the Parzen endpoint, explore / resolve =
+   draw_samples + decode; no task costs *)
+Definition spe_search_endpoint (d : domain) (ps : list DS.prior) (ph : sphase) (path : spe_path) (n : Z) (c : row) (g : speglue)
+  : option response :=
+  spe_endpoint d [] ps (match ph with SInit => SPERandom | SExploit => path | SResolve => SPEDraw end) n c g.
